@@ -91,6 +91,16 @@ def run(tier):
         for _ in range(2000 if tier == "thorough" else 300):
             L = r.choice([3, 4, 15, 16, 17, 26, 100, 255, 600])
             ev([r.randrange(256) for _ in range(L)], r.randrange(65536), default=r.random() < 0.3)
+        # long inputs whose LENGTH is a multiple of a buffer-like size (every multiple of 256 up to 16 KiB, of 1024 up to 64 KiB, of
+        # 1000 up to 64000, and one more / one less): every byte is processed exactly once whatever the length
+        lens = sorted(set(range(256, 16385, 256)) | set(range(1024, 65537, 1024)) | set(range(1000, 64001, 1000)) | {4095, 4097, 12287, 12289, 65535})
+        if tier == "quick":
+            lens = [x for x in lens if x % 1024 == 0 or x in (12287, 12289, 1000, 5000, 10000, 4095, 4097)]
+        for ln in lens:
+            tid += 1
+            data = bytes((j * 13 + ln) % 256 for j in range(ln))
+            st = 0xFFFF if ln % 2048 else r.randrange(65536)
+            evs.append({"tid": tid, "op": "crc", "data": list(data), "start": st, "out": crc(data, st), "_cost": 1 + ln // 512})
         # argument forms the unchanged function accepts for the data (bytes, bytearray, memoryview, list / tuple of ints) and for the
         # start value (int, bool-free int subclass): an equal value in another representation gives the same result
         class _I(int):
